@@ -27,7 +27,7 @@ def plan(tier):
 
 
 def floors(tier):
-    return {"min_decided": 300, "counters": {"c16_bankrupt_runs": 40, "c16_solvent_runs": 100, "post_bankruptcy_dates": 300, "spy_calls": 5000, "fi_negative_dates": 50, "carry_runs": 300, "entry_runs": 300, "entry_bankrupt_entry": 40, "entry_bankrupt_reentry": 40, "entry_bankrupt_hedge_only": 40, "carry_sign_flips": 100, "update_done_evals": 20000},
+    return {"min_decided": 300, "counters": {"c16_bankrupt_runs": 40, "c16_solvent_runs": 100, "post_bankruptcy_dates": 300, "spy_calls": 5000, "fi_negative_dates": 50, "carry_runs": 300, "entry_runs": 200, "entry_bankrupt_entry": 40, "entry_bankrupt_reentry": 40, "entry_bankrupt_hedge_only": 40, "carry_sign_flips": 100, "update_done_evals": 20000},
             "max_undecided_frac": 0.3}
 
 
